@@ -3,7 +3,7 @@ use crate::{
     error::{WriterError, WriterResult},
     model::{
         TryFromNode,
-        field::{as_field_name, resolve_type},
+        field::{as_field_name, rename_keywords, resolve_type},
         structures::{as_rust_identifier, xml_name_to_rust_name},
     },
     reader::WriteXml,
@@ -65,7 +65,11 @@ where
 {
     fn write_xml(&self, writer: &mut W) -> WriterResult<()> {
         // create a wrapping Rust struct for the service
-        let service_name = as_rust_identifier(&self.name);
+        // the service keeps its name as written; a name that is a keyword has to be escaped
+        let service_name = match as_rust_identifier(&self.name) {
+            name if name == "Self" => "Self_".to_string(),
+            name => rename_keywords(&name).to_string(),
+        };
         writeln!(writer, "pub struct {service_name} {{")?;
         writeln!(writer, "    pub client: reqwest::Client,")?;
         writeln!(writer, "    pub location: String,")?;
